@@ -89,21 +89,44 @@ def gen_table(repo):
     ty_rs = strip_comments(read(repo, "pilota-build/src/codegen/thrift/ty.rs"))
     body = fn_body(ty_rs, r"fn\s+ttype\s*\(\s*&self\s*,\s*ty\s*:\s*&Ty\s*\)\s*->\s*FastStr\s*", "ThriftBackend::ttype")
     table = {}
-    # simple arms:  ty::A | ty::B(_) => "::pilota::thrift::TType::X".into(),
-    for lhs, rhs in re.findall(r"((?:ty::\w+(?:\([^)]*\))?\s*\|?\s*)+)=>\s*\"::pilota::thrift::TType::(\w+)\"\.into\(\)", body):
-        for k in re.findall(r"ty::(\w+)", lhs):
-            if k in KINDS:
-                if rhs not in TT:
-                    die("ttype(): unknown TType::%s" % rhs)
-                table[KINDS[k]] = TT[rhs]
+    # EVERY arm of `match &ty.kind` is accounted for: simple arms `ty::A | ty::B(_) => "::pilota::thrift::TType::X".into()` (every
+    # alternative a known kind, no guard, no kind twice), the Path arm, the Arc arm, the final `_ => unimplemented!()`
+    arms = match_arms(the_match(body, r"match\s+&ty\.kind\s*\{", "ttype()"), "ttype()")
+    path, n_simple, seen_special = None, 0, []
+    for pat, rhs in arms:
+        if re.search(r"\bif\b", blank_literals(pat)):
+            die("ttype(): guarded arm `%s`" % " ".join(pat.split()))
+        if pat == "ty::Path(path)":
+            path = rhs; seen_special.append("Path"); continue
+        if pat == "ty::Arc(ty)":
+            if not re.fullmatch(r"self\.ttype\(ty\)", rhs.strip().rstrip(",").strip()):
+                die("ttype(): Arc arm is no longer `self.ttype(ty)`")
+            seen_special.append("Arc"); continue
+        if pat == "_":
+            if not re.fullmatch(r"unimplemented!\(\)", rhs.strip().rstrip(",").strip()) or (pat, rhs) != arms[-1]:
+                die("ttype(): the wildcard arm is no longer the last arm `_ => unimplemented!()`")
+            seen_special.append("_"); continue
+        mr = re.fullmatch(r"\"::pilota::thrift::TType::(\w+)\"\.into\(\)", rhs.strip().rstrip(",").strip())
+        if not mr or mr.group(1) not in TT:
+            die("ttype(): arm `%s` does not answer a known TType constant: %s" % (" ".join(pat.split()), rhs.strip()[:80]))
+        for alt in pat.split("|"):
+            ma = re.fullmatch(r"ty::(\w+)(?:\((?:_|_,\s*_)\))?", alt.strip())
+            if not ma or ma.group(1) not in KINDS:
+                die("ttype(): pattern alternative `%s` is no kind the model knows" % alt.strip())
+            if KINDS[ma.group(1)] in table:
+                die("ttype(): kind %s is matched by two arms" % ma.group(1))
+            table[KINDS[ma.group(1)]] = TT[mr.group(1)]
+        n_simple += 1
+    if sorted(seen_special) != ["Arc", "Path", "_"] or n_simple + 3 != len(arms):
+        die("ttype(): %d arms, accounted for %d simple arms + %r" % (len(arms), n_simple, seen_special))
     missing = [k for k in KINDS.values() if k not in table]
     if missing:
         die("ttype(): no arm found for " + ", ".join(missing))
-    # the Path arm
-    m = re.search(r"ty::Path\(path\)\s*=>\s*\{(.*?)\n            \}", body, flags=re.S)
-    if not m:
-        die("ttype(): Path arm not found")
-    path = m.group(1)
+    # the Path arm: `match &*item` with exactly Message, Enum (repr / no repr), NewType, `_ => panic!`
+    parms = match_arms(the_match(path, r"match\s+&\*item\s*\{", "ttype() Path arm"), "ttype() Path arm")
+    if [" ".join(p.split()) for p, _ in parms] != ["rir::Item::Message(_)", "rir::Item::Enum(e)", "rir::Item::NewType(t)", "_"] \
+            or not re.match(r"\s*panic!\(", parms[3][1]):
+        die("ttype(): the Path arm no longer matches exactly Message / Enum / NewType / `_ => panic!`: %r" % ([p for p, _ in parms],))
     mm = re.search(r"rir::Item::Message\(_\)\s*=>\s*\"::pilota::thrift::TType::(\w+)\"", path)
     if not mm:
         die("ttype(): Path/Message arm not found")
@@ -114,8 +137,6 @@ def gen_table(repo):
     table["KEnumRepr"], table["KEnumNoRepr"] = TT[mm.group(1)], TT[mm.group(2)]
     if not re.search(r"rir::Item::NewType\(t\)\s*=>\s*self\.ttype\(&t\.ty\)", path):
         die("ttype(): Path/NewType arm is no longer `self.ttype(&t.ty)`")
-    if not re.search(r"ty::Arc\(ty\)\s*=>\s*self\.ttype\(ty\)", body):
-        die("ttype(): Arc arm is no longer `self.ttype(ty)`")
     out = ["(* GENERATED by tools/extract_gen.py from pilota-build/src/codegen/thrift/ty.rs (ThriftBackend::ttype, codegen_field_size),",
            "   parser/thrift/mod.rs and pilota-thrift-parser -- do not edit *)",
            "From PVGen Require Import Kinds.", "",
@@ -131,6 +152,14 @@ def gen_table(repo):
     generic = re.search(r"ty::Path\(_\)\s*=>\s*format!\(\"__protocol\.(\w+)\(Some\(\{id\}\), \{ident\}\)\"\)", fs)
     if not enum_first or not generic:
         die("codegen_field_size: Path arms not found")
+    # every arm accounted for: one arm per kind of the table (no alternatives), the guarded enum Path arm directly before the
+    # generic Path arm, Arc, `_ => unimplemented!()`; no other guard
+    farms = match_arms(the_match(fs, r"match\s+&ty\.kind\s*\{", "codegen_field_size"), "codegen_field_size")
+    fpats = [" ".join(p.split()) for p, _ in farms]
+    fk = [re.fullmatch(r"ty::(\w+)(?:\(\w+(?:,\s*\w+)?\))?", x) for x in fpats[:-4]]
+    if fpats[-4:] != ["ty::Path(p) if self.is_i32_enum(p.did)", "ty::Path(_)", "ty::Arc(ty)", "_"] or not all(fk) \
+            or sorted(m.group(1) for m in fk) != sorted(KINDS) or len(farms) != len(KINDS) + 4:
+        die("codegen_field_size: %d arms; expected one per kind (%d), then Path-if-enum, Path, Arc, `_`: %r" % (len(farms), len(KINDS), fpats))
     # which TType does TLengthProtocolExt::<generic> announce?
     mod_rs = strip_comments(read(repo, "pilota/src/thrift/mod.rs"))
     b = fn_body(mod_rs, r"fn\s+%s\s*<M:\s*Message>\s*\(" % generic.group(1), "TLengthProtocolExt::" + generic.group(1))
@@ -141,26 +170,30 @@ def gen_table(repo):
     out.append("Definition path_field_len_ttype : ttype := %s." % TT[mm.group(1)])
     # write side: write_struct_field announces the ttype handed in by the template (ttype of the typedef target)
     ef = fn_body(ty_rs, r"fn\s+codegen_encode_field\s*\(", "codegen_encode_field")
-    nt = re.search(r"rir::Item::NewType\(nt\)\s*=>\s*\{\s*let\s+ttype\s*=\s*self\.ttype\(&nt\.ty\);", ef)
-    out.append("Definition newtype_field_written_with_target_ttype : bool := %s." % ("true" if nt else "false"))
+    if not re.search(r"rir::Item::NewType\(nt\)\s*=>\s*\{\s*let\s+ttype\s*=\s*self\.ttype\(&nt\.ty\);", ef):
+        die("codegen_encode_field: a field of typedef type is no longer written with the TType of the typedef's target "
+            "(Gen.v enc_field announces ttype_of_ty, which resolves typedefs)")
     out.append("")
     # ---- requiredness lowering
     lower = strip_comments(read(repo, "pilota-build/src/parser/thrift/mod.rs"))
     lf = fn_body(lower, r"fn\s+lower_field_with_tags\s*\(", "lower_field_with_tags")
     if not re.search(r"thrift_parser::Attribute::Required\s*=>\s*FieldKind::Required\s*,\s*_\s*=>\s*FieldKind::Optional", lf):
         die("lower_field_with_tags: requiredness lowering changed shape")
-    out.append("(* IDL requiredness -> FieldKind: required stays required, optional AND default become optional *)")
-    out.append("Definition default_requiredness_is_optional : bool := true.")
+    # (IDL requiredness -> FieldKind: required stays required, optional AND default become optional: pv/gengen.py lower_field)
     fun = strip_comments(read(repo, "pilota-thrift-parser/src/parser/function.rs"))
-    arg_req = bool(re.search(r"if\s+f\.attribute\s*==\s*Attribute::Default\s*\{\s*f\.attribute\s*=\s*Attribute::Required", fun))
-    out.append("Definition argument_default_requiredness_is_required : bool := %s." % ("true" if arg_req else "false"))
-    out.append("")
+    if not re.search(r"if\s+f\.attribute\s*==\s*Attribute::Default\s*\{\s*f\.attribute\s*=\s*Attribute::Required", fun):
+        die("pilota-thrift-parser function.rs: an argument of default requiredness is no longer made required "
+            "(pv/gengen.py lower_docs: the fields of <Service><Method>ArgsSend / ArgsRecv)")
     # ---- inventory of raw-pointer / preallocation sites in the decode templates (C19 / C09)
     dec = fn_body(ty_rs, r"fn\s+codegen_decode_ty\s*\(", "codegen_decode_ty") + ty_rs[ty_rs.index("fn decode_set"):]
     inv = {k: len(re.findall(rx, dec)) for k, rx in [("unsafe_blocks", r"unsafe\s*\{\{"), ("set_len", r"\.set_len\("),
                                                       ("as_mut_ptr", r"\.as_mut_ptr\(\)"), ("with_capacity", r"with_capacity\("),
                                                       ("mem_forget", r"mem::forget"), ("from_raw_parts", r"from_raw_parts")]}
-    for k in ("unsafe_blocks", "set_len", "as_mut_ptr", "with_capacity", "mem_forget", "from_raw_parts"):
+    # consumed by Own.v (C19_retention_inventory pins the raw-pointer sites); the preallocation sites are the four of finding
+    # F-09e / F-19 (Vec sync, Vec / set / map async): a fifth one would be a site no C09 / C19 case was written for
+    if inv["with_capacity"] != 4:
+        die("codegen_decode_ty: %d with_capacity sites in the decode templates (the checks C09 / C19 account for 4)" % inv["with_capacity"])
+    for k in ("unsafe_blocks", "set_len", "as_mut_ptr", "mem_forget", "from_raw_parts"):
         out.append("Definition decode_template_%s_sites : nat := %d." % (k, inv[k]))
     return "\n".join(out) + "\n"
 
